@@ -250,3 +250,7 @@ fn('dsplib::norm', M, sig='(const dsplib::arr_real &, int)', key='norm(arr_real,
    ensures=[('terms', 'forall(lambda k: Implies(And(0 <= k, k < x.len), S[k] == If(p == 1, fabs(x[k]), If(p == 2, x[k]*x[k], PW(fabs(x[k]), p)))))'),
             ('length', 'S.len == x.len'),
             ('root', 'result == If(p == 1, SUMR(data(S), x.len), If(p == 2, SQRT(SUMR(data(S), x.len)), POW(SUMR(data(S), x.len), 1 / ToReal(p))))')])
+
+fn('dsplib::complex', M, sig='dsplib::arr_cmplx (const dsplib::arr_real &)', key='complex(arr_real)', serves=['C17', 'C03', 'C05'], pure=True, throws='False',
+   ensures=[('length', 'result.len == re.len'),
+            ('definition', 'forall(lambda k: Implies(And(0 <= k, k < re.len), And(result[k].re == re[k], result[k].im == 0)))')])
